@@ -143,7 +143,7 @@ def _call(draw: st.DrawFn, methods: list[dict[str, Any]]) -> tuple[dict[str, Any
             # reject it (schema mismatch).  Only accounting and shm ≡ inline are judged for such a call.
             # (always the first input: one IPC input stream carries one schema, a later change is refused client-side)
             c["bad_input"] = 0
-        elif c["inputs"] and draw(st.integers(0, 11)) == 5:
+        elif c["inputs"] and draw(st.integers(0, 11)) in (5, 9, 2):
             # client/server signature skew: the call is made through a client Protocol whose method takes one more
             # parameter, so the server refuses the request while reading it — and the first input, already on its way
             # (through shm when large enough), has to be discarded and its region released.
